@@ -69,7 +69,7 @@ def run(ctx):
 # returns and logs is compared with the statement's semantics kept as a small
 # reference state (saved exception, reraise flag) per context.
 EXC_CLASSES = {'E1': 'ValueError', 'E2': 'KeyError', 'N': 'LookupError',
-               'B': 'KeyboardInterrupt'}
+               'B': 'KeyboardInterrupt', 'S': 'ValueError'}
 
 
 def _reference(program):
@@ -152,6 +152,19 @@ def _program_list():
                       ('exit', 0, 'N')])
         progs.append([new, ('capture', 0, None, True), ('force', 0)])
         progs.append([new, ('enter', 0, 'E1'), ('exit', 0, 'B')])
+        # force_reraise() called while another exception is being handled
+        # (a cleanup error caught inside the handler): the same object, one
+        # of the same class, one of another class
+        for active in ('E1', 'S', 'E2', 'B'):
+            progs.append([new, ('enter', 0, 'E1'), ('force', 0, active)])
+            progs.append([new, ('capture', 0, 'E1', True),
+                          ('force', 0, active)])
+            # the with block ends inside an inner handler
+            progs.append([new, ('enter', 0, 'E1'), ('exit', 0, None, active)])
+            progs.append([new, ('enter', 0, 'E1'), ('exit', 0, 'N', active)])
+            progs.append([new, ('enter', 0, 'E1'), ('exit', 0, 'N'),
+                          ('capture', 0, 'E1', True), ('force', 0, active),
+                          ('enter', 0, 'E2'), ('exit', 0, None)])
         # two contexts nested around the same exception: each is judged on
         # its own (the new exception of the inner body crosses both)
         for f2 in (True, False):
@@ -218,16 +231,26 @@ def _programs(ctx):
                     elif kind == 'set':
                         interp.set_attr(objs[i], 'reraise', K(op[2]))
                     elif kind == 'force':
-                        interp.call(interp.get_attr(objs[i],
-                                                    'force_reraise'), [])
+                        act = excs[op[2]] if len(op) > 2 and op[2] else None
+                        _fake_frame(interp, act)
+                        try:
+                            interp.call(interp.get_attr(objs[i],
+                                                        'force_reraise'), [])
+                        finally:
+                            interp.frames.pop()
                     elif kind == 'exit':
                         if op[2] is None:
                             a = [K(None), K(None), K(None)]
                         else:
                             a = [ExtRef(EXC_CLASSES[op[2]]), excs[op[2]],
                                  T('sym', 'new_tb')]
-                        r = interp.call(interp.get_attr(objs[i],
-                                                        '__exit__'), a)
+                        act = excs[op[3]] if len(op) > 3 and op[3] else None
+                        _fake_frame(interp, act)
+                        try:
+                            r = interp.call(interp.get_attr(objs[i],
+                                                            '__exit__'), a)
+                        finally:
+                            interp.frames.pop()
                         if interp.truth(r):
                             res = ('return', 'truthy: the body\'s '
                                    'exception is swallowed')
